@@ -73,7 +73,7 @@ func c05consume(rd io.Reader, limit int) string {
 // SETTINGS predicate of h3_settings_accept_iff vs the real parseSettingsFrame.
 func TestVerif_C05_h3stream(t *testing.T) {
 	s := verifh.New(t, "C05", "h3stream",
-		"byte streams of 0..8 frames built with quic-go's quicvarint (Append, and AppendWithLen for non-minimal forms): DATA/HEADERS with payload lengths 0,1,63,64,300,16383,16384; SETTINGS (valid, duplicate id, bad value of 0x8/0x33, oversize > 8192, truncated pair); skipped types 0x3/0x5/0x7/0xd, greased 0x1f*N+0x21, random types up to 2^62-1, with 0..40 payload bytes; reserved 0x2/0x6/0x8/0x9; the last frame may DECLARE more than remains (any size up to 2^62-1); 1/3 of the streams cut at a random offset (inside a type varint, a length varint, a skipped payload, a SETTINGS payload, a DATA payload); consumer loop = ParseNext + io.CopyN of the declared payload from the same reader, over bytes.Reader, a one-byte-at-a-time reader and iotest.DataErrReader (last bytes together with io.EOF): all three must agree; oracle: visible frames in order with exact payloads, unknown types invisible, reserved = error; second half: SETTINGS payloads vs the declarative predicate (pairs complete, ids distinct, 0x8/0x33 in {0,1}); non-trivial = at least one frame seen / payload accepted")
+		"byte streams of 0..8 frames built with quic-go's quicvarint (Append, and AppendWithLen for non-minimal forms): DATA/HEADERS with payload lengths 0,1,63,64,300,16383,16384; SETTINGS (valid, duplicate id, bad value of 0x8/0x33, oversize > 8192, truncated pair); skipped types 0x3/0x5/0x7/0xd, greased 0x1f*N+0x21, random types up to 2^62-1, with 0..40 payload bytes; reserved 0x2/0x6/0x8/0x9; the last frame may DECLARE more than remains (any size up to 2^62-1); 1/3 of the streams cut at a random offset (inside a type varint, a length varint, a skipped payload, a SETTINGS payload, a DATA payload, or aimed exactly at a frame boundary); the repaired fork reports io.EOF only at a frame boundary and io.ErrUnexpectedEOF inside a frame (quic-go v0.48: io.EOF in both cases, the one documented difference); consumer loop = ParseNext + io.CopyN of the declared payload from the same reader, over bytes.Reader, a one-byte-at-a-time reader and iotest.DataErrReader (last bytes together with io.EOF): all three must agree; oracle: visible frames in order with exact payloads, unknown types invisible, reserved = error; second half: SETTINGS payloads vs the declarative predicate (pairs complete, ids distinct, 0x8/0x33 in {0,1}); non-trivial = at least one frame seen / payload accepted")
 	r := s.Rand()
 	hs := newC05hist(s)
 	n := verifh.N(4000, 80000)
@@ -81,8 +81,9 @@ func TestVerif_C05_h3stream(t *testing.T) {
 		var in []byte
 		var want []string // oracle: what the consumer must see, from the construction
 		nf := r.Intn(9)
-		ended := false    // stop generating frames
-		terminal := false // the last built event ends the consumer loop
+		bounds := map[int]bool{0: true} // offsets at which the consumer stands at a frame boundary
+		ended := false                  // stop generating frames
+		terminal := false               // the last built event ends the consumer loop
 		nonMinimal := false
 		vi := func(b []byte, v uint64) []byte {
 			o := c05varint(r, b, v)
@@ -118,6 +119,7 @@ func TestVerif_C05_h3stream(t *testing.T) {
 					ended, terminal = true, true
 				} else {
 					want = append(want, tag+":"+c05hex(payload))
+					bounds[len(in)] = true
 				}
 			case k < 5: // SETTINGS
 				p, kind := c05settingsPayload(r)
@@ -134,6 +136,8 @@ func TestVerif_C05_h3stream(t *testing.T) {
 				want = append(want, "SETTINGS:"+kind)
 				if kind != "settings-ok" {
 					ended, terminal = true, true
+				} else {
+					bounds[len(in)] = true
 				}
 			case k < 6: // reserved
 				ty := c05pick(r, uint64(2), 6, 8, 9)
@@ -158,6 +162,13 @@ func TestVerif_C05_h3stream(t *testing.T) {
 				in = vi(in, ty)
 				in = vi(in, declared)
 				in = append(in, payload...)
+				if declared == uint64(l) {
+					bounds[len(in)] = true
+				} else {
+					// the stream ends inside a skipped frame: a truncated frame, not a clean end
+					want = append(want, "err:ueof")
+					terminal = true
+				}
 				hs.Count("skipped")
 			}
 		}
@@ -165,10 +176,26 @@ func TestVerif_C05_h3stream(t *testing.T) {
 			want = append(want, "eof")
 		}
 		cut := false
+		cutAtBoundary := false
 		if r.Intn(3) == 0 && len(in) > 0 {
-			in = in[:r.Intn(len(in))]
+			at := r.Intn(len(in))
+			if r.Intn(4) == 0 {
+				// aim at a frame boundary: the clean end the repaired parser must still report as io.EOF
+				for b := range bounds {
+					if b < len(in) && (b > at || r.Intn(3) == 0) {
+						at = b
+					}
+				}
+			}
+			in = in[:at]
 			cut = true
+			cutAtBoundary = bounds[at]
 			hs.Count("cut")
+			if cutAtBoundary {
+				hs.Count("cut-at-boundary")
+			} else {
+				hs.Count("cut-inside-frame")
+			}
 		}
 		if nonMinimal {
 			hs.Count("non-minimal-varint")
@@ -182,6 +209,24 @@ func TestVerif_C05_h3stream(t *testing.T) {
 			why = fmt.Sprintf(" READERS DISAGREE bytes.Reader=%s onebyte=%s dataerr=%s", a, b, d)
 		} else {
 			hs.Count("3-readers-agree")
+		}
+		// io.EOF exactly at a frame boundary, io.ErrUnexpectedEOF inside a frame (RFC 9114 7.1; the
+		// reference says io.EOF in both cases: c05refView(a) is its answer)
+		if cut && ok {
+			got := strings.Split(a, ";")
+			last := got[len(got)-1]
+			switch {
+			case cutAtBoundary && last != "eof":
+				ok, why = false, " BOUNDARY: the stream ends at a frame boundary but the last event is "+last
+			case !cutAtBoundary && last == "eof":
+				ok, why = false, " BOUNDARY: the stream ends inside a frame but the parser reports a clean end"
+			}
+			if last == "err:ueof" {
+				hs.Count("ref-differs-eof-inside-frame")
+				if c05refView(last) != "err:eof" {
+					ok, why = false, " REFVIEW"
+				}
+			}
 		}
 		// oracle from the construction (uncut streams; SETTINGS spots are compared by kind)
 		if !cut && ok {
@@ -231,5 +276,5 @@ func TestVerif_C05_h3stream(t *testing.T) {
 	}
 	s.Finish()
 	hs.Require(t, "ev-data", "ev-headers", "ev-settings", "ev-trunc", "ev-err", "ev-eof", "skipped", "cut", "declared>remaining", "skipped-declared>remaining",
-		"non-minimal-varint", "3-readers-agree", "settings-ok", "settings-dup", "settings-badvalue", "settings-size", "spec-ok", "spec-eof", "spec-reject")
+		"non-minimal-varint", "3-readers-agree", "cut-at-boundary", "cut-inside-frame", "ref-differs-eof-inside-frame", "settings-ok", "settings-dup", "settings-badvalue", "settings-size", "spec-ok", "spec-eof", "spec-reject")
 }
